@@ -54,20 +54,26 @@ def leaf_shapes(st):
   return [s for sub in st[1] for s in leaf_shapes(sub)]
 
 
-def size(st):
-  return sum(int(np.prod(s)) for s in leaf_shapes(st))
+def size(st, cplx=False):
+  """Number of real coordinates (a complex leaf element is two: re, im interleaved)."""
+  return sum(int(np.prod(s)) for s in leaf_shapes(st)) * (2 if cplx else 1)
 
 
-def build(st, flat, mk, pos=None):
+def build(st, flat, mk, pos=None, cplx=False):
   pos = pos if pos is not None else [0]
   if st[0] == 'a':
     n = int(np.prod(st[1]))
+    if cplx:
+      vals = flat[pos[0]:pos[0] + 2 * n]
+      pos[0] += 2 * n
+      a = np.array(vals[0::2], dtype=np.float64) + 1j * np.array(vals[1::2], dtype=np.float64)
+      return mk(a.reshape(st[1]))
     vals = flat[pos[0]:pos[0] + n]
     pos[0] += n
     return mk(np.array(vals, dtype=np.float64).reshape(st[1]))
   if st[0] == 'd':
-    return {k: build(st[1][k], flat, mk, pos) for k in sorted(st[1])}
-  subs = [build(s, flat, mk, pos) for s in st[1]]
+    return {k: build(st[1][k], flat, mk, pos, cplx) for k in sorted(st[1])}
+  subs = [build(s, flat, mk, pos, cplx) for s in st[1]]
   return subs if st[0] == 'l' else tuple(subs)
 
 
@@ -125,8 +131,11 @@ def generate(tier, rng):
     perm = list(range(n))
     rng.shuffle(perm)
     yield {'kind': rng.choice(['mean', 'mean', 'agg']), 'struct': st, 'trees': trees, 'weights': ws, 'perm': perm,
-           'input': rng.choice(['list', 'tuple', 'gen', 'iter']), 'wtype': rng.choice(['float', 'float', 'int', 'np32', 'jnp']),
-           'leaf': rng.choice(['jax', 'jax', 'jax', 'np']), 'tol': 0.0 if exact else TOL, 'dtype': dtype}
+           'input': rng.choice(INPUT_FORMS),
+           'wtype': rng.choice(['float', 'float', 'int', 'np32', 'jnp', 'jnp_weak', 'jnp0d', 'np64', 'np0d']),
+           'leaf': rng.choice(['jax', 'jax', 'jax', 'np']), 'tol': 0.0 if exact else TOL, 'dtype': dtype,
+           'idtype': rng.choice(['bytes', 'str', 'int']), 'kw': rng.random() < 0.2, 'fresh': i % 4 == 0, 'reinit': i % 5 == 0,
+           'ctx': 'nojit' if i % 11 == 5 else 'eager'}
   for i in range(n_sum):
     st = rng.choice(structs)
     n = rng.choice([1, 1, 2, 3, 4, 6])
@@ -137,9 +146,11 @@ def generate(tier, rng):
               for _ in range(k)] for _ in range(n)]
     perm = list(range(n))
     rng.shuffle(perm)
+    ctx = 'nojit' if i % 9 == 4 else 'jit' if i % 9 == 7 else 'eager'
     yield {'kind': 'sum', 'struct': st, 'trees': trees, 'weights': [], 'perm': perm,
-           'input': rng.choice(['list', 'tuple', 'gen', 'iter']), 'wtype': 'float',
-           'leaf': rng.choice(['jax', 'jax', 'np']), 'tol': 0.0 if exact else TOL, 'dtype': dtype}
+           'input': 'list' if ctx == 'jit' else rng.choice(INPUT_FORMS), 'wtype': 'float',
+           'leaf': rng.choice(['jax', 'jax', 'np']), 'tol': 0.0 if exact else TOL, 'dtype': dtype,
+           'kw': rng.random() < 0.2, 'ctx': ctx}
   trip = [(3, 4, 5), (5, 12, 13), (8, 15, 17), (7, 24, 25), (1, 0, 1), (0, 0, 0), (2, 3, 6, 7), (1, 4, 8, 9), (2, 6, 9, 11),
           (1, 2, 2, 3), (4, 4, 7, 9), (2, 10, 11, 15), (0, 0, 0, 0), (1, 1, 1, 1, 2), (2, 4, 5, 6, 9)]
   for i in range(n_clip):
@@ -170,8 +181,82 @@ def generate(tier, rng):
         Fraction(c) / Fraction(norm) == Fraction(float(np.float32(c) / np.float32(norm))) and
         (Fraction(c) / Fraction(norm)).numerator < 64)
     yield {'kind': 'clip', 'struct': st, 'trees': [flat], 'weights': [], 'perm': [0], 'c': float(c), 'norm': float(norm),
-           'input': 'list', 'wtype': rng.choice(['float', 'int', 'jnp']) if float(c).is_integer() else 'float',
-           'leaf': rng.choice(['jax', 'jax', 'np']), 'tol': 0.0 if exact else TOL}
+           'input': 'list', 'wtype': rng.choice(['float', 'int', 'jnp', 'jnp_weak', 'np32', 'np0d']) if float(c).is_integer() else rng.choice(['float', 'np32', 'jnp_weak']),
+           'leaf': rng.choice(['jax', 'jax', 'np']), 'tol': 0.0 if exact else TOL,
+           'kw': rng.random() < 0.2, 'ctx': ['eager', 'eager', 'nojit', 'jit'][i % 4]}
+  # ---- falsy-but-valid boundaries, every tier: first weight exactly 1 (n = 1 and n >= 2), weights 0 and 1 only, total
+  # weight strictly between 0 and 1, a single zero-weight client, empty trees, the empty cohort, ids 0 / b'' / ''
+  small = [['a', [2]], ['d', {'w': ['a', [2, 2]], 'b': ['a', []]}], ['d', {}], ['l', []], ['l', [['a', [0]], ['d', {}]]]]
+  wlists = [[1.0], [1.0, 1.0], [1.0, 4.0], [1.0, 0.0, 3.0], [0.5], [0.25, 0.25], [0.25, 0.5], [0.125, 0.0, 0.25, 0.125],
+            [0.0, 1.0], [0.0], [0.0, 0.0], [2.0 ** -30], [1.0, 1.0, 1.0, 1.0], [0.1, 0.0, 0.2, 0.3], []]
+  j = 0
+  for ws in wlists:
+    for kind in ('mean', 'agg'):
+      for form in ('list', 'gen', 'iterlist', 'map', 'zip'):
+        j += 1
+        st = small[j % len(small)]
+        k = size(st)
+        tot = sum(ws)
+        exact = tot == 0 or math.log2(tot) == int(math.log2(tot))
+        yield {'kind': kind, 'struct': st, 'trees': [[dyadic(rng) for _ in range(k)] for _ in ws], 'weights': list(ws),
+               'perm': list(reversed(range(len(ws)))), 'input': form,
+               'wtype': ['float', 'int', 'jnp', 'jnp_weak', 'np32'][j % 5], 'leaf': 'jax' if j % 4 else 'np',
+               'tol': 0.0 if exact else TOL, 'dtype': 'float32', 'idtype': ['int', 'bytes', 'str'][j % 3],
+               'kw': j % 7 == 0, 'fresh': True, 'reinit': j % 3 == 0, 'ctx': 'nojit' if j % 13 == 0 else 'eager'}
+  for n in (0, 1, 1, 2):
+    for form in ('list', 'gen', 'tuple', 'dictvalues'):
+      j += 1
+      st = small[j % len(small)]
+      yield {'kind': 'sum', 'struct': st, 'trees': [[dyadic(rng) for _ in range(size(st))] for _ in range(n)], 'weights': [],
+             'perm': list(range(n)), 'input': form, 'wtype': 'float', 'leaf': 'jax' if j % 3 else 'np', 'tol': 0.0,
+             'dtype': 'float32', 'kw': False, 'ctx': 'eager'}
+  # ---- further leaf dtypes (exact): uint8, bool (means only: numpy's bool + bool is OR, not a sum), complex64 (a complex
+  # element is two real coordinates), int32 beyond 2^24 (sums only: a float32 round-trip would show)
+  n_dt = {'quick': 48, 'thorough': 400, 'search': 300}.get(tier, 48)
+  for i in range(n_dt):
+    dtype = ['uint8', 'bool', 'complex64', 'int32'][i % 4]
+    cplx = dtype == 'complex64'
+    st = rng.choice([s_ for s_ in structs if size(s_) <= 10])
+    k = size(st, cplx)
+    n = rng.choice([1, 2, 3])
+    kind = {'uint8': ['sum', 'mean', 'agg'], 'bool': ['mean', 'agg'], 'complex64': ['sum', 'mean', 'agg', 'add', 'weight'],
+            'int32': ['sum']}[dtype][(i // 4) % {'uint8': 3, 'bool': 2, 'complex64': 5, 'int32': 1}[dtype]]
+    if kind == 'add':
+      n = 2
+    if kind == 'weight':
+      n = 1
+    val = {'uint8': lambda: float(rng.randrange(0, 21)), 'bool': lambda: float(rng.randrange(0, 2)),
+           'complex64': lambda: dyadic(rng), 'int32': lambda: float(rng.choice([1, -1]) * ((1 << 24) + rng.randrange(1, 1000)))}[dtype]
+    trees = [[val() for _ in range(k)] for _ in range(n)]
+    ws = []
+    if kind in ('mean', 'agg'):
+      ws = gen_weights(rng, n, 'pow2')
+    if kind == 'weight':
+      ws = [dyadic(rng)]
+    perm = list(range(n))
+    rng.shuffle(perm)
+    yield {'kind': kind, 'struct': st, 'trees': trees, 'weights': ws, 'perm': perm, 'input': rng.choice(['list', 'gen', 'iterlist']),
+           'wtype': 'float', 'leaf': rng.choice(['jax', 'np']), 'tol': 0.0, 'dtype': dtype, 'idtype': 'bytes', 'kw': False,
+           'ctx': 'eager'}
+  for i in range(n_dt // 4):            # complex clipping: |3 + 4i| = 5
+    comps, norm = rng.choice([((3, 4), 5), ((5, 12), 13), ((0, 0), 0), ((8, 15), 17)])
+    st = rng.choice([s_ for s_ in structs if 1 <= size(s_) <= 8] or [['a', [1]]])
+    k = size(st, True)
+    flat = [float(comps[0]), float(comps[1])] + [0.0] * (k - 2)
+    c = float(rng.choice([norm, norm * 2, norm / 2, norm / 4, 0.0, 1.0]))
+    exact = norm == 0 or c >= norm or (c / norm) in (0.5, 0.25, 0.0)
+    yield {'kind': 'clip', 'struct': st, 'trees': [flat], 'weights': [], 'perm': [0], 'c': c, 'norm': float(norm),
+           'input': 'list', 'wtype': 'float', 'leaf': rng.choice(['jax', 'np']), 'tol': 0.0 if exact else TOL,
+           'dtype': 'complex64', 'kw': False, 'ctx': 'eager'}
+  # ---- the remaining public helpers: tree_l2_squared / tree_l2_norm / tree_size / tree_zeros_like
+  for i in range(n_dt // 2):
+    st = rng.choice(structs + small)
+    dtype = ['float32', 'float32', 'complex64', 'int32'][i % 4]
+    k = size(st, dtype == 'complex64')
+    yield {'kind': ['l2', 'zeros_like', 'size'][i % 3], 'struct': st,
+           'trees': [[float(rng.randrange(-6, 7)) if dtype == 'int32' else dyadic(rng) for _ in range(k)]], 'weights': [],
+           'perm': [0], 'input': 'list', 'wtype': 'float', 'leaf': rng.choice(['jax', 'np']), 'tol': 0.0, 'dtype': dtype,
+           'kw': False, 'ctx': 'eager'}
   # low-precision / narrow leaf dtypes: the tree operations are dtype-generic.  Values and weights are
   # kept so small that every intermediate is exact in the leaf dtype (float16: 11 significant bits,
   # bfloat16: 8, int8: no overflow), so these cases are compared exactly like the float32 dyadic ones.
@@ -243,13 +328,44 @@ class OneShot:
     return v
 
 
+INPUT_FORMS = ['list', 'tuple', 'gen', 'iter', 'iterlist', 'map', 'zip', 'dictvalues', 'partial', 'reentrant']
+
+
 def _wrap(items, how):
+  """The delivery form of the iterable argument.  Returns (argument, one-shot probe or None)."""
+  items = list(items)
   if how == 'list':
-    return list(items), None
+    return items, None
   if how == 'tuple':
     return tuple(items), None
   if how == 'gen':
     return (x for x in items), None
+  if how == 'iterlist':
+    return iter(items), None
+  if how == 'map':
+    return map(lambda x: x, items), None
+  if how == 'zip':                               # a zip object over the columns (only for tuple elements)
+    if items and isinstance(items[0], tuple):
+      return zip(*[[x[j] for x in items] for j in range(len(items[0]))]), None
+    return (x for (x,) in zip(items)), None
+  if how == 'dictvalues':
+    return {('k', i): x for i, x in enumerate(items)}.values(), None
+  if how == 'partial':                           # an iterator of which one element was already taken
+    it = iter(['already consumed'] + items)
+    next(it)
+    return it, None
+  if how == 'reentrant':                         # a generator that itself calls tree_sum / tree_mean while being consumed
+    def gen():
+      import jax.numpy as jnp
+      from fedjax.core import tree_util
+      for i, x in enumerate(items):
+        if i == 1:
+          inner = tree_util.tree_sum(iter([{'q': jnp.ones(2)}, {'q': jnp.full(2, 2.)}]))
+          inner2 = tree_util.tree_mean([({'q': jnp.ones(2)}, 1.), ({'q': jnp.full(2, 3.)}, 1.)])
+          if float(inner['q'][0]) != 3.0 or float(inner2['q'][1]) != 2.0:
+            raise AssertionError('re-entrant call gave a wrong result')
+        yield x
+    return gen(), None
   it = OneShot(items)
   return it, it
 
@@ -262,6 +378,14 @@ def _weight(w, wtype):
     return np.float32(w)
   if wtype == 'jnp':
     return jnp.float32(w)
+  if wtype == 'jnp_weak':                        # weakly typed jax scalar
+    return jnp.asarray(float(w))
+  if wtype == 'jnp0d':
+    return jnp.array(w, dtype=jnp.float32)
+  if wtype == 'np64':
+    return np.float64(w)
+  if wtype == 'np0d':
+    return np.array(w, dtype=np.float32)
   return float(w)
 
 
@@ -273,8 +397,60 @@ def _leaves(t):
 def _flat(t):
   out = []
   for l in _leaves(t):
-    out += [float(v) for v in np.asarray(l, dtype=np.float64).reshape(-1)]
+    a = np.asarray(l)
+    if np.iscomplexobj(a):
+      a = a.astype(np.complex128).reshape(-1)
+      out += [float(v) for pair in zip(a.real, a.imag) for v in pair]
+    else:
+      out += [float(v) for v in a.astype(np.float64).reshape(-1)]
   return out
+
+
+def _np_dtype(name):
+  import jax.numpy as jnp
+  return np.dtype(jnp.bfloat16) if name == 'bfloat16' else np.dtype(name)
+
+
+def _container_snapshot(arg, trees):
+  """Container level view of the caller's data: the sequence object (if re-iterable), its elements, every tree's
+  structure and the identity of every leaf."""
+  import jax
+  snap = {'trees': [(jax.tree_util.tree_structure(t), [id(l) for l in _leaves(t)]) for t in trees]}
+  if isinstance(arg, (list, tuple)):
+    snap['seq'] = (len(arg), [id(x) for x in arg], [len(x) if isinstance(x, tuple) else None for x in arg])
+  return snap
+
+
+def _container_same(arg, trees, snap):
+  import jax
+  now = [(jax.tree_util.tree_structure(t), [id(l) for l in _leaves(t)]) for t in trees]
+  if now != snap['trees']:
+    return False
+  if 'seq' in snap:
+    return snap['seq'] == (len(arg), [id(x) for x in arg], [len(x) if isinstance(x, tuple) else None for x in arg])
+  return True
+
+
+_OBJ = {}       # objects reused for the whole process (the aggregator and its state)
+_KEPT = {}      # results kept by "the caller" from earlier calls in this process: must stay valid and unchanged
+
+
+def _check_kept():
+  import jax
+  bad = False
+  for key, (leaves, snaps) in list(_KEPT.items()):
+    for l, s_ in zip(leaves, snaps):
+      if isinstance(l, jax.Array) and l.is_deleted():
+        bad = True
+      elif np.asarray(l).tobytes() != s_:
+        bad = True
+  return bad
+
+
+def _keep(key, res):
+  if res is not None:
+    ls = _leaves(res)
+    _KEPT[key] = (ls, [np.asarray(l).tobytes() for l in ls])
 
 
 def _inspect(inputs, snaps, result):
@@ -308,58 +484,121 @@ def _inspect(inputs, snaps, result):
   return sorted(set(problems))
 
 
+def _ids(n, idtype):
+  if idtype == 'str':
+    return [''] + ['c%d' % i for i in range(1, n)]
+  if idtype == 'int':
+    return list(range(n))
+  return [b''] + [b'c%d' % i for i in range(1, n)]
+
+
 def _call(case, order):
+  import contextlib
   import jax
   import jax.numpy as jnp
   import fedjax
   from fedjax.core import tree_util
   st, kind = case['struct'], case['kind']
-  dt = np.dtype(jnp.bfloat16) if case.get('dtype') == 'bfloat16' else np.dtype(case.get('dtype', 'float32'))
+  dname = case.get('dtype', 'float32')
+  cplx = dname == 'complex64'
+  dt = _np_dtype(dname)
   mk = (lambda a: jnp.asarray(a, dtype=dt)) if case['leaf'] == 'jax' else (lambda a: np.asarray(a).astype(dt))
-  # sums keep the leaf dtype; leaf * weight follows jax's promotion: a floating leaf keeps its dtype under a
-  # python-scalar weight, everything else becomes float32
-  floating = case.get('dtype', 'float32') in ('float16', 'bfloat16', 'float32')
-  want_dt = dt if kind in ('sum', 'add') or (floating and case['wtype'] in ('float', 'int')) else np.dtype(np.float32)
-  trees = [build(st, case['trees'][i], mk) for i in order]
+  # sums keep the leaf dtype; leaf * weight follows jax's promotion: a floating / complex leaf keeps its dtype under a
+  # python-scalar (or weakly typed) weight, everything else becomes float32
+  floating = dname in ('float16', 'bfloat16', 'float32', 'complex64')
+  weak_w = case['wtype'] in ('float', 'int', 'jnp_weak')
+  if kind in ('sum', 'add', 'zeros_like'):
+    want_dt = dt
+  elif floating and (weak_w or dname in ('float32', 'complex64')):
+    want_dt = dt
+  else:
+    want_dt = np.dtype(np.float32)
+  trees = [build(st, case['trees'][i], mk, None, cplx) for i in order]
   snaps = [[np.array(l, copy=True) for l in _leaves(t)] for t in trees]
   ws = [case['weights'][i] for i in order] if kind in ('mean', 'agg') else case['weights']
-  it = None
+  kw = bool(case.get('kw'))
+  ctx = case.get('ctx', 'eager')
+  cm = jax.disable_jit() if ctx == 'nojit' else contextlib.nullcontext()
+  it, arg, extra = None, None, []
   if kind == 'mean':
     arg, it = _wrap([(t, _weight(w, case['wtype'])) for t, w in zip(trees, ws)], case['input'])
-    res = tree_util.tree_mean(arg)
   elif kind == 'agg':
-    agg = fedjax.aggregators.mean_aggregator()
-    state = agg.init()
-    arg, it = _wrap([(b'c%d' % i, t, _weight(w, case['wtype'])) for i, (t, w) in enumerate(zip(trees, ws))], case['input'])
-    res, new_state = agg.apply(arg, state)
-    if type(new_state) is not type(state):
-      raise AssertionError('aggregator state changed type')
+    ids = _ids(len(trees), case.get('idtype', 'bytes'))
+    arg, it = _wrap([(i, t, _weight(w, case['wtype'])) for i, (t, w) in zip(ids, zip(trees, ws))], case['input'])
   elif kind == 'sum':
     arg, it = _wrap(trees, case['input'])
-    res = tree_util.tree_sum(arg)
-  elif kind == 'clip':
-    res = tree_util.tree_clip_by_global_norm(trees[0], _weight(case['c'], case['wtype']))
-  elif kind == 'weight':
-    res = tree_util.tree_weight(trees[0], _weight(ws[0], case['wtype']))
-  elif kind == 'invweight':
-    res = tree_util.tree_inverse_weight(trees[0], _weight(ws[0], case['wtype']))
-  elif kind == 'invweight_eq':
-    # the donating variant owns its argument: hand it a private copy, as tree_mean does
-    own = jax.tree_util.tree_map(jnp.array, trees[0])
-    res = tree_util._tree_inverse_weight_eq(own, _weight(ws[0], case['wtype']))  # pylint: disable=protected-access
-  elif kind == 'add':
-    res = tree_util.tree_add(trees[0], trees[1])
-  else:
-    raise ValueError(kind)
-  res = jax.block_until_ready(res)
-  same_struct = (res is not None and jax.tree_util.tree_structure(res) == jax.tree_util.tree_structure(trees[0]) and
-                 [tuple(np.shape(l)) for l in _leaves(res)] == [tuple(np.shape(l)) for l in _leaves(trees[0])] and
-                 all(np.asarray(l).dtype == want_dt for l in _leaves(res)))
+  csnap = _container_snapshot(arg, trees)
+  with cm:
+    if kind == 'mean':
+      res = tree_util.tree_mean(pytrees_and_weights=arg) if kw else tree_util.tree_mean(arg)
+    elif kind == 'agg':
+      agg = _OBJ.setdefault('aggregator', fedjax.aggregators.mean_aggregator())   # ONE aggregator for the whole process
+      state = _OBJ.get('agg_state')
+      if state is None or case.get('reinit'):
+        state = agg.init()
+      res, new_state = agg.apply(clients_params_and_weights=arg, state=state) if kw else agg.apply(arg, state)
+      if type(new_state) is not type(state) or type(agg.init()) is not type(state):
+        raise AssertionError('aggregator state changed type')
+      _OBJ['agg_state'] = new_state
+      if case.get('fresh') and isinstance(arg, (list, tuple)):
+        fresh = fedjax.aggregators.mean_aggregator()
+        res2, _ = fresh.apply(arg, fresh.init())
+        if res is not None and [np.asarray(a).tobytes() for a in _leaves(res)] != [np.asarray(a).tobytes() for a in _leaves(res2)]:
+          extra.append('fresh-differs')
+    elif kind == 'sum':
+      if ctx == 'jit' and isinstance(arg, list):
+        res = jax.jit(lambda ts: tree_util.tree_sum(ts))(arg)
+      else:
+        res = tree_util.tree_sum(pytrees=arg) if kw else tree_util.tree_sum(arg)
+    elif kind == 'clip':
+      c = _weight(case['c'], case['wtype'])
+      if ctx == 'jit':
+        res = jax.jit(tree_util.tree_clip_by_global_norm)(trees[0], c)
+      else:
+        res = tree_util.tree_clip_by_global_norm(pytree=trees[0], max_norm=c) if kw else tree_util.tree_clip_by_global_norm(trees[0], c)
+    elif kind == 'weight':
+      w = _weight(ws[0], case['wtype'])
+      res = tree_util.tree_weight(pytree=trees[0], weight=w) if kw else tree_util.tree_weight(trees[0], w)
+    elif kind == 'invweight':
+      w = _weight(ws[0], case['wtype'])
+      res = tree_util.tree_inverse_weight(pytree=trees[0], weight=w) if kw else tree_util.tree_inverse_weight(trees[0], w)
+    elif kind == 'invweight_eq':
+      # the donating variant owns its argument: hand it a private copy, as tree_mean does
+      own = jax.tree_util.tree_map(jnp.array, trees[0])
+      res = tree_util._tree_inverse_weight_eq(own, _weight(ws[0], case['wtype']))  # pylint: disable=protected-access
+    elif kind == 'add':
+      res = tree_util.tree_add(left=trees[0], right=trees[1]) if kw else tree_util.tree_add(trees[0], trees[1])
+    elif kind == 'zeros_like':
+      res = tree_util.tree_zeros_like(trees[0])
+    elif kind in ('l2', 'size'):
+      res = None
+      re = lambda v: float(np.real(np.asarray(v)))
+      extra_vals = [re(tree_util.tree_l2_squared(trees[0])), re(tree_util.tree_l2_norm(trees[0])),
+                    int(tree_util.tree_size(trees[0]))]
+    else:
+      raise ValueError(kind)
+    res = jax.block_until_ready(res)
+  ref = trees[0] if trees else None
+  same_struct = (res is not None and ref is not None and
+                 jax.tree_util.tree_structure(res) == jax.tree_util.tree_structure(ref) and
+                 [tuple(np.shape(l)) for l in _leaves(res)] == [tuple(np.shape(l)) for l in _leaves(ref)] and
+                 # (with jit disabled numpy leaves are multiplied by NumPy itself, whose promotion rules differ: dtype not judged)
+                 (all(np.asarray(l).dtype == want_dt for l in _leaves(res)) or (ctx == 'nojit' and case['leaf'] == 'np')))
   one_shot = None
   if it is not None:
     one_shot = {'taken': it.i, 'len': len(it._items), 'iter_calls': it.iter_calls, 'after_end': it.after_end}  # pylint: disable=protected-access
-  return {'res': None if res is None else _flat(res), 'struct_ok': bool(same_struct),
-          'inputs': _inspect(trees, snaps, res), 'one_shot': one_shot}
+  problems = _inspect(trees, snaps, res) + extra
+  if not _container_same(arg, trees, csnap):
+    problems.append('container-modified')
+  if _check_kept():
+    problems.append('kept-result-changed')
+  if kind in ('mean', 'agg', 'sum', 'clip'):
+    _keep(kind, res)
+  out = {'res': None if res is None else _flat(res), 'struct_ok': bool(same_struct), 'inputs': sorted(set(problems)),
+         'one_shot': one_shot, 'raw': res}
+  if kind in ('l2', 'size'):
+    out['values'] = extra_vals
+  return out
 
 
 def run(case):
@@ -370,7 +609,7 @@ def run(case):
     return {'error': type(ex).__name__}
   enc = lambda xs: None if xs is None else [v if math.isfinite(v) else None for v in xs]
   return {'error': None, 'res': enc(first['res']), 'struct_ok': first['struct_ok'], 'inputs': first['inputs'],
-          'one_shot': first['one_shot'],
+          'one_shot': first['one_shot'], 'values': first.get('values'),
           'res_perm': None if second is None else enc(second['res']),
           'inputs_perm': [] if second is None else second['inputs']}
 
@@ -398,22 +637,57 @@ def _tol(case):
   return Fraction(math.ceil(case['tol'] * _scale(case) * 10 ** 7), 10 ** 7)
 
 
+def _asdt(case, v):
+  """The value the leaf actually holds: v rounded to the leaf dtype (exact for all generated exact-stream values)."""
+  d = case.get('dtype', 'float32')
+  if d == 'complex64':
+    return float(np.float32(v))
+  if d == 'bool':
+    return float(bool(v))
+  if d.startswith('int') or d.startswith('uint'):
+    return float(int(v))
+  return float(np.asarray(v).astype(_np_dtype(d)).astype(np.float64))
+
+
 def oracle(case, obs):
   out = []
   kind = case['kind']
   if obs.get('error'):
     return [('raises-' + obs['error'], f'{kind} raised {obs["error"]} on an input of the property\'s domain')]
   res = obs['res']
+  special = {'container-modified': ('container-modified', 'the caller\'s list / tuple / tree containers were changed by the call'),
+             'kept-result-changed': ('kept-result-changed', 'a result returned by an earlier call was deleted or changed by this call'),
+             'fresh-differs': ('fresh-differs', 'a reused aggregator object and a freshly built one disagree')}
+  if kind in ('l2', 'size'):
+    x = [_asdt(case, v) for v in case['trees'][0]]
+    sq, nrm, sz = obs['values']
+    want = sum(v * v for v in x)
+    if abs(sq - want) > TOL * (1 + want) or abs(nrm - math.sqrt(want)) > TOL * (1 + math.sqrt(want)):
+      out.append(('l2-value', f'tree_l2_squared / tree_l2_norm = {sq} / {nrm}, sum of squares is {want}'))
+    if sz != len(x) // (2 if case.get('dtype') == 'complex64' else 1):
+      out.append(('size-value', f'tree_size = {sz}'))
+    return out + [special[p] for p in obs['inputs'] if p in special] + [('input-' + p, p) for p in obs['inputs'] if p not in special]
+  if not case['trees']:
+    if res is not None:
+      out.append(('empty-cohort', f'{kind} of an empty iterable returned a tree'))
+    return out
   if res is None:
     return [('returns-none', f'{kind} returned None for a non-empty input')]
+  if kind == 'zeros_like':
+    if any(v != 0 for v in res) or not obs['struct_ok']:
+      out.append(('zeros-like', 'tree_zeros_like is not the zero tree of the same structure / shapes / dtype'))
+    return out
   if not obs['struct_ok']:
     out.append(('structure', 'result does not have the structure / leaf shapes of the inputs (dtype: the inputs\' for sums; leaf-times-weight promotion for means / clipping)'))
-  for p in obs['inputs'] + obs['inputs_perm']:
-    out.append(('input-' + p, f'{kind}: a caller input array was {p} by the call'))
+  for p in sorted(set(obs['inputs'] + obs['inputs_perm'])):
+    if p in special:
+      out.append(special[p])
+    else:
+      out.append(('input-' + p, f'{kind}: a caller input array was {p} by the call'))
   os_ = obs['one_shot']
   if os_ is not None and (os_['taken'] != os_['len'] or os_['iter_calls'] != 1):
     out.append(('one-pass', f'one-shot iterator: {os_["taken"]} of {os_["len"]} elements taken, iter() called {os_["iter_calls"]} times'))
-  trees = [np.array(t, dtype=np.float32).astype(np.float64) for t in case['trees']]
+  trees = [np.array([_asdt(case, v) for v in t], dtype=np.float64) for t in case['trees']]
   sc = _scale(case)
   _close = lambda a, b, tol=TOL: _close0(a, b, tol * sc)
   if kind in ('mean', 'agg'):
@@ -472,21 +746,16 @@ def oracle(case, obs):
 
 # ---------------------------------------------------------------------------
 
-def _q32(v):
-  return fw.qlit(float(np.float32(v)))
-
-
-def _qtree(t):
-  return '[' + '; '.join(_q32(v) for v in t) + ']'
-
-
 def encode(case, obs):
-  if obs.get('error') or obs['res'] is None and case['trees']:
+  if case['kind'] in ('l2', 'size', 'zeros_like'):
+    return None
+  _qtree = lambda t: '[' + '; '.join(fw.qlit(_asdt(case, v)) for v in t) + ']'
+  if obs.get('error') or obs['res'] is None:
     res = 'None'
   else:
     res = '(Some [' + '; '.join('None' if v is None else f'Some {fw.qlit(v)}' for v in obs['res']) + '])'
   kind = case['kind']
-  ws = [fw.qlit(float(np.float32(w)) if case['wtype'] in ('np32', 'jnp') else float(w)) for w in case['weights']]
+  ws = [fw.qlit(float(np.float32(w)) if case['wtype'] in ('np32', 'jnp', 'jnp0d', 'np0d', 'jnp_weak', 'np64') else float(w)) for w in case['weights']]
   if kind == 'mean':
     c = 'KMean [' + '; '.join(f'({_qtree(t)}, {w})' for t, w in zip(case['trees'], ws)) + ']'
   elif kind == 'agg':
@@ -514,13 +783,17 @@ def nontrivial(case, obs):
 
 def describe(case, obs):
   d = {'kind': case['kind'], 'clients': len(case['trees']), 'input': case['input'], 'exact': case['tol'] == 0,
-       'dtype': case.get('dtype', 'float32'),
+       'dtype': case.get('dtype', 'float32'), 'ctx': case.get('ctx', 'eager'), 'kw': bool(case.get('kw')),
        'leaves': min(len(leaf_shapes(case['struct'])), 6)}
   if case['kind'] in ('mean', 'agg'):
     ws = case['weights']
     d['weights'] = 'all-zero' if not any(ws) else 'some-zero' if 0 in ws else 'positive'
     d['weight_scale'] = 'tiny' if 0 < sum(ws) < 1e-4 else 'normal'
     d['wtype'] = case['wtype']
+    d['first_weight_one'] = bool(ws) and ws[0] == 1
+    d['total'] = 'zero' if not sum(ws) else 'below-1' if sum(ws) < 1 else 'ge-1'
+    if case['kind'] == 'agg':
+      d['idtype'] = case.get('idtype', 'bytes')
   if case['kind'] == 'clip':
     d['clip'] = 'zero-tree' if case['norm'] == 0 else 'below' if case['norm'] < case['c'] else 'equal' if case['norm'] == case['c'] else 'above'
   return d
